@@ -323,7 +323,7 @@ func (c18) Gen(rng *rand.Rand, tier string, i int) *sim.Scenario {
 		c := sim.Call{Entry: "enrich", Target: pick(rng, pool...), Hops: hops}
 		sc.Calls = []sim.Call{c}
 		for _, a := range pool {
-			sc.DNS = append(sc.DNS, sim.DNSPlan{Addr: dnsKey(mustParse(a)), Script: []string{pick(rng, "names:1", "names:2", "names:3", "empty", dnsErr(rng), "slow:200000:1", "slow:6000000:1", "stall"), pick(rng, "names:1", dnsErr(rng))}})
+			sc.DNS = append(sc.DNS, sim.DNSPlan{Addr: dnsKey(mustParse(a)), Script: []string{pick(rng, "names:1", "names:2", "names:3", "dupnames:1", "dupnames:2", "empty", dnsErr(rng), "slow:200000:1", "slow:6000000:1", "stall"), pick(rng, "names:1", dnsErr(rng))}})
 		}
 		sc.Note = "family=enrich"
 	case 1: // cache histories
@@ -335,7 +335,7 @@ func (c18) Gen(rng *rand.Rand, tier string, i int) *sim.Scenario {
 			}
 			var script []string
 			for k := 0; k < 12; k++ {
-				script = append(script, pick(rng, "names:1", "names:2", dnsErr(rng), "slow:300000:1", "empty", "names:1"))
+				script = append(script, pick(rng, "names:1", "names:2", "dupnames:1", "dupnames:2", dnsErr(rng), "slow:300000:1", "empty", "names:1"))
 			}
 			sc.DNS = []sim.DNSPlan{{Addr: addr, Script: script}}
 			sc.Note = "family=cache-dns"
